@@ -616,7 +616,7 @@ def run_trace_controls(chk, d):
 def describe(sc, line, values):
     if line["ev"] == "theory":
         return f"misorientations_random over [0, {sc['theta_max']}] for {sc['system']}: exc={line['exc']} integral(fine)={values.get('fine')} integral(1-degree bins)={values.get('coarse')}"
-    head = f"{sc['system']} / {sc['texture']} / n={sc['n']} (rep {sc['rep']}): M={values.get('base')}"
+    head = f"{sc['system']} / {sc['texture']}{' mult=' + str(list(sc['mult'])) if sc.get('mult') else ''} / n={sc['n']} (rep {sc['rep']}): M={values.get('base')}"
     if line["ev"] == "base":
         return head + f" exc={line['exc']}"
     vals = {k.split(":", 1)[1]: v for k, v in values.items() if k.startswith(line["transform"] + ":")}
@@ -684,9 +684,9 @@ def main(tier):
             for ln in lines:
                 if ln["ev"] == "pair":
                     for ax in ln["axes"]:
-                        chk.count((s["system"], s["texture"], s["n"], s["rep"], ln["transform"], ax))
+                        chk.count((s["system"], s["texture"], s["n"], s["rep"], ln["transform"], ax, tuple(s.get("mult", ()))))
                 else:
-                    chk.count((s["system"], s.get("texture", "theory"), s.get("n", 0), s.get("rep", 0), ln["ev"]))
+                    chk.count((s["system"], s.get("texture", "theory"), s.get("n", 0), s.get("rep", 0), ln["ev"], tuple(s.get("mult", ()))))
         rejects, skips, res = judge(traces, d, "main", timeout=900)
         chk.add_tlc("MIndexTrace(judge)", res, f"{len(traces)} recorded traces, {sum(len(t) for t in traces)} lines")
         chk.cov["traces_validated_against_impl"] += len(traces)
